@@ -628,6 +628,8 @@ func runC11(c *Ctx) {
 		r.Add("R6", "one-line-per-piece:"+c.FuncKey(fn), c.InstrPos(cs), c.FuncKey(fn), "exactly one line is sent for each piece", okRaw, why)
 	}
 	r.Floor("R6", "call sites of the splitter", n6, 2)
+	// the formatting variants must hand formatted TEXT to the non-formatting sender
+	c.formatHygieneRule("R6")
 }
 
 // singleVarargElem: the variadic slice holds exactly one value; return it.
